@@ -215,6 +215,9 @@ func runC02(cx *Ctx, r *Report) {
 	r.requireCount("net-zero-intermediate", 4)
 	r.requireCount("swap-bound", 4)
 	r.requireCount("deadline-guard", 5)
+	if n := cx.exactNameLookupRule(r, "coinswap", []string{"str:lptDenom/", "str:pool/"}, "name-lookup-exact"); n < 2 {
+		r.toolErr("only %d name-keyed lookups of the pool records found in the coinswap keeper (≥2 confirmed)", n)
+	}
 	r.requireCount("lpt-pairing", 4)
 }
 
